@@ -21,6 +21,7 @@ class Kemeny(Suite):
     name = "kemeny"
     imports = ["Scheme", "Rank", "KemenyImpl", "Judge.JC01"]
     judge = "judge_kemeny"
+    ctype = "scheme * dataset * ranking * result kemeny_err Z"
     show = "show_kemeny"
 
     def gen(self, tier, rng):
